@@ -8,10 +8,10 @@ pub fn prop() -> Prop {
     Prop {
         id: "C16",
         level: "fault_enumeration",
-        rule: "inputs: clean and noisy streams over a 7-value core (1..3 values, 4 separator kinds; thorough adds all pairs); faults: the reader fails when asked for the byte at EVERY offset 0..=len (after 0,1,2 Interrupted results), Interrupted at every offset without failure, stdout fails after accepting EVERY number of bytes 0..len(out) (plain, with 1- and 3-byte short writes, with Interrupted on every 2nd call), stderr likewise under --on-error=stderr, unopenable files in every position of a file list; x 4 policies x 4 pipelines (streaming, select, sort, group); non-trivial = the fault offset falls strictly inside the input/output; distinct by construction",
+        rule: "inputs: clean and noisy streams over a 7-value core (1..3 values, 4 separator kinds; thorough adds all pairs) plus three long ones (2500 rows, a 9000-character string, 700 noisy lines) faulted at the first and last 40 offsets and around 255, 256, 1 KiB, 4 KiB, 8 KiB, 16 KiB, 32 KiB, 64 KiB of the input and of the output; faults: the reader fails when asked for the byte at EVERY offset 0..=len (after 0,1,2 Interrupted results), Interrupted at every offset without failure, stdout fails after accepting EVERY number of bytes 0..len(out) (plain, with 1- and 3-byte short writes, with Interrupted on every 2nd call), stderr likewise under --on-error=stderr, unopenable files in every position of a file list; x 4 policies x 4 pipelines (streaming, select, sort, group); non-trivial = the fault offset falls strictly inside the input/output; distinct by construction",
         explanation: "every fault point of every history is enumerated on the real code with fault-injecting Read/Write implementations; oracle: Err (not Ok, not a panic), the reader is never asked again after its failure, stdout is a prefix of the fault-free stdout; a fault the fault-free run never reaches must change nothing",
         assumptions: COMMON_ASSUMPTIONS.to_vec(),
-        guards: vec!["read-fault-inside-value", "read-fault-at-eof", "write-fault-inside-row", "interrupted-then-error", "short-writes", "stderr-write-fault", "missing-file"],
+        guards: vec!["fault-beyond-8192", "read-fault-inside-value", "read-fault-at-eof", "write-fault-inside-row", "interrupted-then-error", "short-writes", "stderr-write-fault", "missing-file"],
         budget_s: (100, 1800),
         single_worker: false,
         run,
@@ -50,9 +50,31 @@ fn inputs(tier: Tier) -> Vec<Vec<u8>> {
     for n in ["} 1 ] 2", "1 x \"a\" , [1] :", "nul 1 tru {\"a\":} 2", "\"abc", "[1,2", "1 \u{e9} 2"] {
         v.push(n.to_string());
     }
+    // long inputs / outputs (faults at the size thresholds only, see `offsets`)
+    v.push((0..2500).map(|i| format!("{{\"i\":{i}}}\n")).collect::<String>());
+    v.push(format!("\"{}\" [1] 2\n", "w".repeat(9000)));
+    v.push((0..700).map(|i| format!("{i} }} :\n")).collect::<String>());
     let mut out: Vec<Vec<u8>> = v.into_iter().map(|s| s.into_bytes()).collect();
     out.push(b"1 \xff 2 \x80\n3".to_vec());
     out
+}
+
+/// every offset of a short text; for a long one the offsets around the sizes at which buffers fill and counters wrap
+fn offsets(n: usize) -> Vec<usize> {
+    if n <= 400 {
+        return (0..n).collect();
+    }
+    let mut v: Vec<usize> = (0..40).collect();
+    for t in [255usize, 256, 1023, 1024, 4095, 4096, 8191, 8192, 16383, 16384, 32768, 65535, 65536] {
+        for d in [t.saturating_sub(1), t, t + 1] {
+            v.push(d);
+        }
+    }
+    v.extend((n.saturating_sub(40))..n);
+    v.retain(|k| *k < n);
+    v.sort();
+    v.dedup();
+    v
 }
 
 fn args(policy: &str, pipe: &[&str]) -> Vec<String> {
@@ -83,7 +105,7 @@ fn run(ctx: &mut Ctx) {
                 }
                 let reached_eof = ff.read_calls > ff.bytes_pulled;
                 // ---- read faults at every offset
-                for k in 0..=input.len() {
+                for k in offsets(input.len() + 1) {
                     for j in 0..3u32 {
                         let mut c = base.clone();
                         c.rplan = ReadPlan {
@@ -101,6 +123,9 @@ fn run(ctx: &mut Ctx) {
                         }
                         if k == input.len() && hit {
                             ctx.guard("read-fault-at-eof");
+                        }
+                        if k >= 8192 {
+                            ctx.guard("fault-beyond-8192");
                         }
                         if k > 0 && k < input.len() {
                             ctx.nontrivial();
@@ -138,7 +163,7 @@ fn run(ctx: &mut Ctx) {
                 }
                 // ---- Interrupted (no failure) at every offset at once, and singly
                 let mut plans: Vec<Vec<usize>> = vec![(0..=input.len()).collect()];
-                for k in 0..=input.len() {
+                for k in offsets(input.len() + 1) {
                     plans.push(vec![k]);
                 }
                 for p in plans {
@@ -151,7 +176,7 @@ fn run(ctx: &mut Ctx) {
                     }
                 }
                 // ---- write faults on stdout at every offset of the fault-free output
-                for k in 0..ff.stdout.len() {
+                for k in offsets(ff.stdout.len()) {
                     for (variant, chunk, intr) in [("plain", 0usize, 0usize), ("short1", 1, 0), ("short3", 3, 0), ("eintr", 0, 2)] {
                         let mut c = base.clone();
                         c.wplan = WritePlan { stdout_fail_at: Some(k), stderr_fail_at: None, max_chunk: chunk, interrupt_every: intr };
@@ -195,7 +220,7 @@ fn run(ctx: &mut Ctx) {
                     }
                 }
                 // ---- stderr faults (only meaningful when diagnostics go there)
-                for k in 0..ff.stderr.len() {
+                for k in offsets(ff.stderr.len()) {
                     let mut c = base.clone();
                     c.wplan = WritePlan { stdout_fail_at: None, stderr_fail_at: Some(k), max_chunk: 0, interrupt_every: 0 };
                     let o = ctx.run(&c);
